@@ -105,7 +105,7 @@ def run(ch: Checker) -> None:
         if p.exit_kind != 'return':
             continue
         sym = Sym(p)
-        facts = p.facts()
+        facts = list(allfacts(p).items())
         for idx, st in p.stmts():
             for c in walk_no_nested(st):
                 if isinstance(c, ast.Call) and attr_chain(c.func) == 'struct.pack' and len(c.args) >= 2:
@@ -114,8 +114,8 @@ def run(ch: Checker) -> None:
                         continue
                     second = sym.value(c.args[1], idx)
                     # second-byte packs mention `masked` (directly or through a local) -- or the path tested it
-                    if not any(isinstance(n, ast.Attribute) and n.attr == 'masked' for n in ast.walk(second)) and not any(k == 'self.masked' for k, v in p.facts(idx) if True) \
-                            or not any('payload_length <' in k for k, v in p.facts(idx)):
+                    if not any(isinstance(n, ast.Attribute) and n.attr == 'masked' for n in ast.walk(second)) and not any(k == 'self.masked' for k, v in list(allfacts(p, idx).items()) if True) \
+                            or not any('payload_length <' in k for k, v in list(allfacts(p, idx).items())):
                         continue
                     if id(c) in seen_sites:
                         continue
@@ -159,7 +159,7 @@ def run(ch: Checker) -> None:
         for idx, st in p.stmts():
             for c in walk_no_nested(st):
                 if isinstance(c, ast.Call) and attr_chain(c.func) == 'struct.unpack' and len(c.args) == 2:
-                    facts = [f for f in p.facts(idx) if 'payload_length ==' in f[0] and f[1]]
+                    facts = [f for f in list(allfacts(p, idx).items()) if 'payload_length ==' in f[0] and f[1]]
                     if not facts:
                         continue
                     try:
@@ -215,7 +215,7 @@ def run(ch: Checker) -> None:
             problem = 'the returned remainder is not %s[<consumed>:]' % raw_param
         if problem:
             bad3 = True
-            ch.bad('C16.3', parse, 'cursor: ' + ' / '.join('%s=%s' % f for f in p.facts())[:110], problem, witness=p.describe(24))
+            ch.bad('C16.3', parse, 'cursor: ' + ' / '.join('%s=%s' % f for f in list(allfacts(p).items()))[:110], problem, witness=p.describe(24))
         else:
             n_ok += 1
     if not bad3:
@@ -236,7 +236,7 @@ def run(ch: Checker) -> None:
         for idx, st in p.stmts():
             if isinstance(st, ast.Assign) and any(isinstance(t, ast.Attribute) and t.attr == 'payload_length' for t in st.targets) \
                     and isinstance(st.value, ast.Call) and attr_chain(st.value.func) == 'len':
-                facts = p.facts(idx)
+                facts = list(allfacts(p, idx).items())
                 if (id(st), tuple(facts)) in seen4:
                     continue
                 seen4.add((id(st), tuple(facts)))
@@ -302,7 +302,7 @@ def run(ch: Checker) -> None:
             continue
         n_paths += 1
         sym = Sym(p)
-        masked = ('self.masked', True) in [f for f in p.facts() if f[0] == 'self.masked'][-1:] if any(f[0] == 'self.masked' for f in p.facts()) else None
+        masked = ('self.masked', True) in [f for f in list(allfacts(p).items()) if f[0] == 'self.masked'][-1:] if any(f[0] == 'self.masked' for f in list(allfacts(p).items())) else None
         # last decision on self.masked that guards the payload part: use the last occurrence
         writes = []
         for idx, st in p.stmts():
@@ -315,7 +315,7 @@ def run(ch: Checker) -> None:
         if masked is True:
             if len(key_writes) != 1:
                 bad6 += 1
-                ch.bad('C16.6', build, 'masked path: ' + ' / '.join('%s=%s' % f for f in p.facts())[-100:],
+                ch.bad('C16.6', build, 'masked path: ' + ' / '.join('%s=%s' % f for f in list(allfacts(p).items()))[-100:],
                        'a masked frame is built without writing the 4-byte masking key exactly once (%d key write(s)); the decoder always consumes it' % len(key_writes),
                        witness=p.describe(24))
                 continue
@@ -341,7 +341,7 @@ def run(ch: Checker) -> None:
             continue
         n_paths += 1
         sym = Sym(p)
-        mf = [f for f in p.facts() if f[0] == 'self.masked']
+        mf = [f for f in list(allfacts(p).items()) if f[0] == 'self.masked']
         if not mf:
             continue
         masked = all(f[1] for f in mf)
@@ -356,7 +356,7 @@ def run(ch: Checker) -> None:
         if masked:
             if len(key_reads) != 1 or key_reads[0][2] != Lin(4):
                 bad6 += 1
-                ch.bad('C16.6', parse, 'masked path: ' + ' / '.join('%s=%s' % f for f in p.facts())[-100:],
+                ch.bad('C16.6', parse, 'masked path: ' + ' / '.join('%s=%s' % f for f in list(allfacts(p).items()))[-100:],
                        'on a path where `masked` holds the decoder does not consume exactly one 4-byte masking key (reads: %s); the encoder always writes it'
                        % [str(k[2]) for k in key_reads], witness=p.describe(24))
             elif len(unmask) != 1 or len(unmask[0][1].args) != 2 or norm(unmask[0][1].args[1]) != 'self.mask':
@@ -396,7 +396,7 @@ def run(ch: Checker) -> None:
         for idx, st in p.stmts():
             for c in walk_no_nested(st):
                 if isinstance(c, ast.Call) and attr_chain(c.func) == 'struct.unpack' and len(c.args) == 2 and _reads_of(sym.value(c.args[1], idx), raw_param, sym, idx) and ext is None:
-                    if any('payload_length ==' in f[0] and f[1] for f in p.facts(idx)):
+                    if any('payload_length ==' in f[0] and f[1] for f in list(allfacts(p, idx).items())):
                         ext = idx
             if isinstance(st, ast.Assign) and len(st.targets) == 1 and attr_chain(st.targets[0]) == 'self.mask' and _reads_of(sym.value(st.value, idx), raw_param, sym, idx):
                 key = idx if key is None else key
@@ -481,7 +481,11 @@ class _SubstAttrs(ast.NodeTransformer):
 def _eval_with(e: ast.AST, values: Dict[str, Any], m: Any, ce: ConstEval) -> Any:
     import copy as _copy
     e2 = ast.fix_missing_locations(_SubstAttrs(values).visit(_copy.deepcopy(e)))
-    return ce.try_eval(m, e2)
+    cls = None
+    for ci in getattr(ce.prog, 'classes', {}).values():
+        if ci.module is m and ci.name == 'WebsocketFrame':
+            cls = ci
+    return ce.try_eval(m, e2, {'__class__': cls})
 
 
 def _slice_width(v: ast.AST) -> Optional[Lin]:
@@ -574,7 +578,7 @@ def _decoder_masks(fn: FuncInfo, m: Any, ce: ConstEval) -> Dict[str, Any]:
                 v = v.args[0]
             if isinstance(v, ast.BinOp) and isinstance(v.op, ast.BitAnd):
                 for side in (v.right, v.left):
-                    k = ce.try_eval(m, side)
+                    k = ce.try_eval(m, side, {'__class__': fn.cls})
                     if isinstance(k, int):
                         out[st.targets[0].attr] = k
     return out
